@@ -1,16 +1,18 @@
 pub mod keys;
+pub mod threads;
 pub mod worlds;
 
 use crate::explore::Report;
 use crate::Args;
 
 pub fn names() -> Vec<&'static str> {
-    vec!["keys", "reuse", "modes", "batch", "removal", "disable"]
+    vec!["keys", "reuse", "modes", "batch", "removal", "disable", "ping-seq", "chan-seq", "ping-mt", "chan-mt", "exec-mt", "wakeup", "run", "block_on"]
 }
 
 pub fn dispatch(args: &Args) -> Option<Report> {
     match args.driver.as_str() {
         "keys" => Some(keys::run(&args.tier, args.shard, args.seed)),
+        d if threads::is_driver(d) => threads::run(args),
         d if worlds::cfg_for(d, &args.tier).is_some() => worlds::run(args),
         other => {
             eprintln!("unknown driver {other}");
